@@ -111,10 +111,11 @@ Qed.
 Lemma byte_of_small v : 0 <= v < 256 -> byte_of v = v.
 Proof. intros H. unfold byte_of. apply Z.mod_small. exact H. Qed.
 
-Lemma decide_dec_ref em ds lu : ds <> [] -> forallb is_digit ds = true -> 0 < dec_val ds < 128 -> dec_val ds <> 38 ->
-  decide em [] (38 :: 35 :: ds ++ 59 :: lu) = Repl (2 + len ds) [dec_val ds].
+Lemma decide_dec_ref em lb ds lu : ds <> [] -> forallb is_digit ds = true -> 0 < dec_val ds < 128 -> dec_val ds <> 38 ->
+  (cont_start (dec_val ds) = false \/ lb = false) ->
+  decide em [] lb (38 :: 35 :: ds ++ 59 :: lu) = Repl (2 + len ds) [dec_val ds].
 Proof.
-  intros Hne Hd Hv H38. pose proof (len_nonneg ds) as Hl0. pose proof (len_nonneg lu) as Hlu.
+  intros Hne Hd Hv H38 Hnear. pose proof (len_nonneg ds) as Hl0. pose proof (len_nonneg lu) as Hlu.
   assert (Hl1 : 1 <= len ds) by (destruct ds; [congruence|rewrite len_cons; pose proof (len_nonneg ds); lia]).
   set (u := 38 :: 35 :: ds ++ 59 :: lu).
   assert (Hlen : len u = 2 + len ds + 1 + len lu) by (unfold u; rewrite !len_cons, len_app, len_cons; lia).
@@ -134,13 +135,16 @@ Proof.
   { unfold u. change (38 :: 35 :: ds ++ 59 :: lu) with ((38 :: 35 :: ds) ++ 59 :: lu).
     replace (2 + len ds) with (len (38 :: 35 :: ds)) by (rewrite !len_cons; lia). apply getz_app_len. }
   rewrite G3. replace ((2 + len ds <? len u) && (59 =? 59) && (2 <? 2 + len ds + 1)) with true by lia.
-  rewrite byte_of_small by lia. cbn [lookup_byte]. replace (dec_val ds =? 38) with false by lia. reflexivity.
+  rewrite byte_of_small by lia. cbn [lookup_byte]. replace (dec_val ds =? 38) with false by lia.
+  unfold dguard. replace (cont_start (dec_val ds) && lb) with false; [reflexivity|].
+  destruct Hnear as [-> | ->]; [reflexivity|rewrite andb_false_r; reflexivity].
 Qed.
 
-Lemma decide_hex_ref em hs lu : hs <> [] -> forallb is_hex hs = true -> 0 < hex_num hs < 128 -> hex_num hs <> 38 ->
-  decide em [] (38 :: 35 :: 120 :: hs ++ 59 :: lu) = Repl (3 + len hs) [hex_num hs].
+Lemma decide_hex_ref em lb hs lu : hs <> [] -> forallb is_hex hs = true -> 0 < hex_num hs < 128 -> hex_num hs <> 38 ->
+  (cont_start (hex_num hs) = false \/ lb = false) ->
+  decide em [] lb (38 :: 35 :: 120 :: hs ++ 59 :: lu) = Repl (3 + len hs) [hex_num hs].
 Proof.
-  intros Hne Hd Hv H38. pose proof (len_nonneg hs) as Hl0. pose proof (len_nonneg lu) as Hlu.
+  intros Hne Hd Hv H38 Hnear. pose proof (len_nonneg hs) as Hl0. pose proof (len_nonneg lu) as Hlu.
   assert (Hl1 : 1 <= len hs) by (destruct hs; [congruence|rewrite len_cons; pose proof (len_nonneg hs); lia]).
   set (u := 38 :: 35 :: 120 :: hs ++ 59 :: lu).
   assert (Hlen : len u = 3 + len hs + 1 + len lu) by (unfold u; rewrite !len_cons, len_app, len_cons; lia).
@@ -159,13 +163,15 @@ Proof.
   { unfold u. change (38 :: 35 :: 120 :: hs ++ 59 :: lu) with ((38 :: 35 :: 120 :: hs) ++ 59 :: lu).
     replace (3 + len hs) with (len (38 :: 35 :: 120 :: hs)) by (rewrite !len_cons; lia). apply getz_app_len. }
   rewrite G3. replace ((3 + len hs <? len u) && (59 =? 59) && (2 <? 3 + len hs + 1)) with true by lia.
-  rewrite byte_of_small by lia. cbn [lookup_byte]. replace (hex_num hs =? 38) with false by lia. reflexivity.
+  rewrite byte_of_small by lia. cbn [lookup_byte]. replace (hex_num hs =? 38) with false by lia.
+  unfold dguard. replace (cont_start (hex_num hs) && lb) with false; [reflexivity|].
+  destruct Hnear as [-> | ->]; [reflexivity|rewrite andb_false_r; reflexivity].
 Qed.
 
 (* ---- ReplaceEntities on clean inputs ------------------------------------------------------------------------ *)
 Lemma ent_step_ref em D ref l v f :
   1 <= len ref -> 3 < len ref + len l -> getz (ref ++ l) 0 = 38 ->
-  (forall lu, decide em [] (ref ++ lu) = Repl (len ref - 1) [v]) ->
+  (forall lu, decide em [] (look_behind (rev D) 1) (ref ++ lu) = Repl (len ref - 1) [v]) ->
   ent_loop em [] (S f) (D ++ ref ++ l) (len D) = ent_loop em [] f ((D ++ [v]) ++ l) (len (D ++ [v])).
 Proof.
   intros H1 H3 H38 Hdec. pose proof (len_nonneg D). pose proof (len_nonneg l).
@@ -175,7 +181,7 @@ Proof.
   2:{ replace (len D) with (len D + 0) at 1 by lia. rewrite getz_shift by lia. rewrite H38.
       replace (len D + 3 <? len (D ++ ref ++ lu ++ lw)) with true by (rewrite !len_app in *; lia). reflexivity. }
   rewrite (app_assoc ref lu lw).
-  rewrite (replace_at_dec em [] D (ref ++ lu) lw Hw) by (rewrite !len_app in *; pose proof (len_nonneg lu); lia).
+  rewrite (replace_at_dec em [] _ D (ref ++ lu) lw eq_refl Hw) by (rewrite !len_app in *; pose proof (len_nonneg lu); lia).
   rewrite Hdec. cbn [apply_dec]. rewrite <- (app_assoc ref lu lw).
   replace (len D + (len ref - 1)) with (len D + len ref - 1) by lia.
   rewrite splice_ref by (change (len [v]) with 1; lia). cbn [rbind].
@@ -183,17 +189,18 @@ Proof.
   rewrite <- app_assoc. reflexivity.
 Qed.
 
-Lemma clean_replace em b o : clean b o ->
-  forall D f, len b < Z.of_nat f -> ent_loop em [] f (D ++ b) (len D) = Ok (D ++ o).
+Lemma clean_replace em acc b o : clean_from acc b o ->
+  forall D f, rev D = acc -> len b < Z.of_nat f -> ent_loop em [] f (D ++ b) (len D) = Ok (D ++ o).
 Proof.
-  induction 1 as [|c l o Hc Hcl IH|ds l o Hne Hd Hv H38 Hcl IH|hs l o Hne Hd Hv H38 Hcl IH]; intros D f Hf.
+  induction 1 as [acc|acc c l o Hc Hcl IH|acc ds l o Hne Hd Hv H38 Hnear Hcl IH|acc hs l o Hne Hd Hv H38 Hnear Hcl IH];
+    intros D f HD Hf.
   - rewrite app_nil_r. apply ent_loop_end. lia.
   - destruct f as [|f]; [pose proof (len_nonneg (c :: l)); lia|]. rewrite len_cons in Hf.
     rewrite ent_loop_skip; [|rewrite len_app, len_cons; pose proof (len_nonneg l); lia
                             |rewrite getz_app_len; replace (c =? 38) with false by lia; reflexivity].
     replace (D ++ c :: l) with ((D ++ [c]) ++ l) by (rewrite <- app_assoc; reflexivity).
     replace (len D + 1) with (len (D ++ [c])) by (rewrite len_app; reflexivity).
-    rewrite IH by lia. rewrite <- app_assoc. reflexivity.
+    rewrite IH; [rewrite <- app_assoc; reflexivity|rewrite rev_unit, HD; reflexivity|lia].
   - destruct f as [|f]; [pose proof (len_nonneg (38 :: 35 :: ds ++ 59 :: l)); lia|].
     assert (Hl1 : 1 <= len ds) by (destruct ds; [congruence|rewrite len_cons; pose proof (len_nonneg ds); lia]).
     pose proof (len_nonneg l) as Hl0.
@@ -203,11 +210,11 @@ Proof.
     assert (Hlr : len (38 :: 35 :: ds ++ [59]) = 3 + len ds) by (rewrite !len_cons, len_app; change (len [59]) with 1; lia).
     rewrite len_app, Hlr in Hf.
     rewrite (ent_step_ref em D (38 :: 35 :: ds ++ [59]) l (dec_val ds) f); [|lia|lia|reflexivity|].
-    + rewrite IH by lia. rewrite <- app_assoc. reflexivity.
+    + rewrite IH; [rewrite <- app_assoc; reflexivity|rewrite rev_unit, HD; reflexivity|lia].
     + intros lu. rewrite Hlr. replace (3 + len ds - 1) with (2 + len ds) by lia.
       replace ((38 :: 35 :: ds ++ [59]) ++ lu) with (38 :: 35 :: ds ++ 59 :: lu)
         by (cbn [app]; rewrite <- app_assoc; reflexivity).
-      apply decide_dec_ref; assumption.
+      apply decide_dec_ref; try assumption. rewrite HD. exact Hnear.
   - destruct f as [|f]; [pose proof (len_nonneg (38 :: 35 :: 120 :: hs ++ 59 :: l)); lia|].
     assert (Hl1 : 1 <= len hs) by (destruct hs; [congruence|rewrite len_cons; pose proof (len_nonneg hs); lia]).
     pose proof (len_nonneg l) as Hl0.
@@ -217,16 +224,17 @@ Proof.
     assert (Hlr : len (38 :: 35 :: 120 :: hs ++ [59]) = 4 + len hs) by (rewrite !len_cons, len_app; change (len [59]) with 1; lia).
     rewrite len_app, Hlr in Hf.
     rewrite (ent_step_ref em D (38 :: 35 :: 120 :: hs ++ [59]) l (hex_num hs) f); [|lia|lia|reflexivity|].
-    + rewrite IH by lia. rewrite <- app_assoc. reflexivity.
+    + rewrite IH; [rewrite <- app_assoc; reflexivity|rewrite rev_unit, HD; reflexivity|lia].
     + intros lu. rewrite Hlr. replace (4 + len hs - 1) with (3 + len hs) by lia.
       replace ((38 :: 35 :: 120 :: hs ++ [59]) ++ lu) with (38 :: 35 :: 120 :: hs ++ 59 :: lu)
         by (cbn [app]; rewrite <- app_assoc; reflexivity).
-      apply decide_hex_ref; assumption.
+      apply decide_hex_ref; try assumption. rewrite HD. exact Hnear.
 Qed.
 
-Lemma clean_noamp b o : clean b o -> ~ In 38 o.
+Lemma clean_noamp acc b o : clean_from acc b o -> ~ In 38 o.
 Proof.
-  induction 1 as [|c l o Hc Hcl IH|ds l o Hne Hd Hv H38 Hcl IH|hs l o Hne Hd Hv H38 Hcl IH]; cbn [In]; intuition.
+  induction 1 as [acc|acc c l o Hc Hcl IH|acc ds l o Hne Hd Hv H38 Hnear Hcl IH|acc hs l o Hne Hd Hv H38 Hnear Hcl IH];
+    cbn [In]; intuition.
 Qed.
 
 Lemma noamp_fix em rm l : ~ In 38 l -> forall D f, len l < Z.of_nat f -> ent_loop em rm f (D ++ l) (len D) = Ok (D ++ l).
@@ -258,10 +266,10 @@ Proof.
   rewrite IH by (intros Hin; apply Hn; right; exact Hin). reflexivity.
 Qed.
 
-Lemma clean_decode b o : clean b o -> html_decode b = o.
+Lemma clean_decode acc b o : clean_from acc b o -> html_decode b = o.
 Proof.
   unfold html_decode.
-  induction 1 as [|c l o Hc Hcl IH|ds l o Hne Hd Hv H38 Hcl IH|hs l o Hne Hd Hv H38 Hcl IH].
+  induction 1 as [acc|acc c l o Hc Hcl IH|acc ds l o Hne Hd Hv H38 Hnear Hcl IH|acc hs l o Hne Hd Hv H38 Hnear Hcl IH].
   - reflexivity.
   - cbn [html_decode_from]. rewrite ref_at_noamp by exact Hc. rewrite IH. reflexivity.
   - cbn [html_decode_from]. 
@@ -298,26 +306,26 @@ Lemma entities_idempotent_partial_proof : forall em b o, clean b o ->
   replace_entities em [] b = Ok o /\ replace_entities em [] o = Ok o.
 Proof.
   intros em b o H. unfold replace_entities. split.
-  - exact (clean_replace em b o H [] (S (length b)) ltac:(unfold len; lia)).
-  - exact (noamp_fix em [] o (clean_noamp b o H) [] (S (length o)) ltac:(unfold len; lia)).
+  - exact (clean_replace em [] b o H [] (S (length b)) eq_refl ltac:(unfold len; lia)).
+  - exact (noamp_fix em [] o (clean_noamp [] b o H) [] (S (length o)) ltac:(unfold len; lia)).
 Qed.
 
 Lemma entities_preserve_decoding_partial_proof : forall em b o, clean b o ->
   replace_entities em [] b = Ok o /\ html_decode b = o /\ html_decode o = o.
 Proof.
   intros em b o H. split; [apply entities_idempotent_partial_proof; exact H|].
-  split; [apply clean_decode; exact H|apply html_decode_noamp; exact (clean_noamp b o H)].
+  split; [apply (clean_decode []); exact H|apply html_decode_noamp; exact (clean_noamp [] b o H)].
 Qed.
 
 Example clean_example :
   (* `a&#60;b&#x000041;&#9;c` is clean and decodes to `a<bA<TAB>c` *)
   clean [97; 38;35;54;48;59; 98; 38;35;120;48;48;48;48;52;49;59; 38;35;57;59; 99] [97; 60; 98; 65; 9; 99].
 Proof.
+  unfold clean. apply CL_text; [discriminate|].
+  apply (CL_dec _ [54; 48]); [discriminate|reflexivity|vm_compute; split; reflexivity|discriminate|left; reflexivity|].
   apply CL_text; [discriminate|].
-  apply (CL_dec [54; 48]); [discriminate|reflexivity|vm_compute; split; reflexivity|discriminate|].
-  apply CL_text; [discriminate|].
-  apply (CL_hex [48; 48; 48; 48; 52; 49]); [discriminate|reflexivity|vm_compute; split; reflexivity|discriminate|].
-  apply (CL_dec [57]); [discriminate|reflexivity|vm_compute; split; reflexivity|discriminate|].
+  apply (CL_hex _ [48; 48; 48; 48; 52; 49]); [discriminate|reflexivity|vm_compute; split; reflexivity|discriminate|right; reflexivity|].
+  apply (CL_dec _ [57]); [discriminate|reflexivity|vm_compute; split; reflexivity|discriminate|left; reflexivity|].
   apply CL_text; [discriminate|]. apply CL_nil.
 Qed.
 
@@ -359,8 +367,8 @@ Proof.
     assert (Eu : ref = u ++ lw) by (unfold ref, u; rewrite Hsp; cbn [app]; rewrite <- app_assoc; reflexivity).
     assert (Hlu : len u = 4 + len hs + len lu) by (unfold u; rewrite !len_cons, len_app, len_cons; lia).
     destruct (scan_hex_big hs lu 0 (Z.le_refl 0) Hh Hv) as (nd & cc & Es & Hnd & Hcc).
-    assert (Hdec : decide em rm u = Keep (3 + nd - 1)).
-    { unfold decide.
+    assert (Hdec : forall lb, decide em rm lb u = Keep (3 + nd - 1)).
+    { intros lb. unfold decide.
       assert (G1 : getz u 1 = 35) by (unfold u; change 1 with (1 + 0); rewrite getz_S by lia; apply getz_0).
       assert (G2 : getz u 2 = 120) by (unfold u; change 2 with (1 + (1 + 0)); rewrite !getz_S by lia; apply getz_0).
       rewrite G1, G2. change (35 =? 35) with true. change (120 =? 120) with true. cbv iota.
@@ -371,7 +379,7 @@ Proof.
     2:{ replace (len D) with (len D + 0) at 1 by lia. rewrite getz_shift by lia.
         unfold u at 1. cbn [app]. rewrite getz_0.
         replace (len D + 3 <? len (D ++ u ++ lw)) with true by (rewrite !len_app; lia). reflexivity. }
-    rewrite (replace_at_dec em rm D u lw Hw) by lia. rewrite Hdec. cbn [apply_dec rbind].
+    rewrite (replace_at_dec em rm _ D u lw eq_refl Hw) by lia. rewrite Hdec. cbn [apply_dec rbind].
     (* the rest of the buffer contains no '&' *)
     set (m := 3 + nd). replace (len D + (m - 1) + 1) with (len D + m) by lia.
     rewrite (split_at (u ++ lw) m) at 1. rewrite app_assoc.
